@@ -454,6 +454,9 @@ class NDNApp:
             except (InterestNack, InterestTimeout, InterestCanceled, ValidationFailure) as e:
                 self.logger.error('Registration for %s failed: %s', Name.to_str(name), e.__class__.__name__)
                 return False
+            except (DecodeError, TypeError, ValueError, IndexError, struct.error):
+                self.logger.error('Registration for %s failed: malformed response', Name.to_str(name))
+                return False
 
     async def unregister(self, name: NonStrictName) -> bool:
         """
